@@ -316,15 +316,23 @@ PROPS = {
                        "during a monitor's set-up, between and inside notifications, with the client's own transaction in flight (request or reply lost), or goes silent "
                        "(inactivity probe), repeatedly, while another client keeps committing; after every cut the cache must equal the monitored part of the database once "
                        "the client reports being connected; Transact calls carry unique marker values (returned results => stored exactly once, error => at most once). "
+                       "Last-transaction-id known to the server: Cli/Since.v models a history-keeping server (found=true: the update2 difference since the id; found=false: "
+                       "the contents; both with the current id) and the client's (cache, id) bookkeeping; a client good for the current state stays so through any session of "
+                       "update3 notifications and reconnections whether or not the id is found (C16_since_session); the pinned client, which kept its old id after found=false, "
+                       "is refuted. In 40% of the cases (always in the scripted case 0) the proxy plays such a server on top of the built-in one: a shadow monitor learns "
+                       "every transaction id, the driver snapshots the database after each transaction, and a monitor_cond_since request whose id and current contents have "
+                       "snapshots is answered [true, id, difference] - or, 25% of the time, [false, id, contents] as a cluster member with a shorter history would. "
                        "Partial: leader-only mode is not exercised (the built-in server has no _Server database here); cut positions are sampled, not enumerated; the timing "
                        "of the reconnect loop is the implementation's."),
         "level_note": ("Trusted: Coq kernel + vm_compute, std++; Go harness incl. the proxy (it forwards whole JSON messages) and its polling for convergence (8 s deadline). "
                        "Notifications arriving while a monitor is being restarted are C01's deferral theorem."),
         "rule": ("per case 1..3 monitors (any method) on disjoint groups of 3 tables (+ an unmonitored or monitored marker table), 3 (thorough 5) cuts of 5 kinds, 1..3 foreign "
                  "transactions (incl. deletes, GC, weak pruning) per cut, 20% of the cases with the inactivity probe and a silent peer, 25% with a cut during the first connect. "
-                 "Non-trivial: >= 2 monitors."),
+                 "History mode: one monitor_cond_since monitor, a transaction while connected before most cuts, the server unreachable (connections refused) while others "
+                 "commit in 70% of the idle cuts, a quiet second cut after half of the rounds; case 0 runs the fixed sequence notified / unreachable while a set and a map "
+                 "change / back / quiet second cut. Non-trivial: >= 2 monitors, or history mode with a found=true answer."),
         "tags": {1: "cache after resynchronisation vs the model (monitored part of the database)"},
-        "assumptions": ["monitors of one client watch disjoint tables", "the server answers a re-established monitor with the complete contents (the built-in server never knows a last transaction id)"],
+        "assumptions": ["monitors of one client watch disjoint tables", "outside history mode the server answers a re-established monitor with the complete contents (the built-in server never knows a last transaction id); in history mode the proxy's answers are those of a server as ovsdb-server(7) describes monitor_cond_since"],
     },
     "C18": {
         "level_text": ("Theorems (Props/C18.v, axiom-free): threads that acquire locks in increasing rank order and release what they hold never reach a state where every unfinished "
